@@ -1073,7 +1073,14 @@ type c03Site struct {
 	InLoop                          bool
 }
 
+// the assignments to the attestation variable of Keeper.Attest that receives the vote, in source order
+var (
+	c03LookupVar string
+	c03Lookup    []string
+)
+
 func (c *ctxT) c03TrySites() (sites []c03Site, problems []string) {
+	c03LookupVar, c03Lookup = "", nil
 	start := c.findFunc(c03Keeper, "Keeper", "Attest")
 	if start == nil {
 		return nil, []string{"Keeper.Attest not found"}
@@ -1090,28 +1097,83 @@ func (c *ctxT) c03TrySites() (sites []c03Site, problems []string) {
 	walk = func(fd *ast.FuncDecl, claimParam string, guards []string, inLoop bool, depth int) {
 		voted := map[string]bool{}
 		recordedOf := map[string]string{}
+		// every assignment to a local, in source order: where an attestation variable gets its value from
+		srcOf := map[string][]string{}
+		anyOfClaim := map[string]bool{} // locals holding codectypes.NewAnyWithValue(<the voter's claim>)
 		ast.Inspect(fd.Body, func(n ast.Node) bool {
 			as, ok := n.(*ast.AssignStmt)
-			if !ok || len(as.Rhs) != 1 {
-				return true
-			}
-			ce, ok := as.Rhs[0].(*ast.CallExpr)
-			if !ok {
+			if !ok || len(as.Rhs) != 1 || len(as.Lhs) == 0 {
 				return true
 			}
 			lhs, ok := as.Lhs[0].(*ast.Ident)
 			if !ok {
 				return true
 			}
-			fn := c.src(ce.Fun)
-			if strings.HasSuffix(fn, ".GetAttestation") && len(ce.Args) == 3 && c.src(ce.Args[1]) == claimParam+".GetEventNonce()" && c.src(ce.Args[2]) == claimParam+".ClaimHash()" {
-				voted[lhs.Name] = true
+			kind := "other:" + strings.SplitN(c.src(as.Rhs[0]), "\n", 2)[0]
+			switch rhs := as.Rhs[0].(type) {
+			case *ast.CallExpr:
+				fn := c.src(rhs.Fun)
+				if strings.HasSuffix(fn, ".GetAttestation") && len(rhs.Args) == 3 && c.src(rhs.Args[1]) == claimParam+".GetEventNonce()" && c.src(rhs.Args[2]) == claimParam+".ClaimHash()" {
+					kind = "ownKey"
+				}
+				if strings.HasSuffix(fn, "UnpackAttestationClaim") && len(rhs.Args) == 2 {
+					recordedOf[lhs.Name] = c.src(rhs.Args[1])
+				}
+				if strings.HasSuffix(fn, "NewAnyWithValue") && len(rhs.Args) == 1 && c.src(rhs.Args[0]) == claimParam {
+					anyOfClaim[lhs.Name] = true
+				}
+			case *ast.UnaryExpr:
+				if cl, ok := rhs.X.(*ast.CompositeLit); ok && strings.HasSuffix(c.src(cl.Type), "Attestation") {
+					fresh, votes := false, false
+					for _, el := range cl.Elts {
+						if kv, ok := el.(*ast.KeyValueExpr); ok {
+							switch c.src(kv.Key) {
+							case "Claim":
+								fresh = anyOfClaim[c.src(kv.Value)]
+							case "Votes":
+								votes = true
+							}
+						}
+					}
+					if fresh && !votes {
+						kind = "fresh"
+					}
+				}
 			}
-			if strings.HasSuffix(fn, "UnpackAttestationClaim") && len(ce.Args) == 2 {
-				recordedOf[lhs.Name] = c.src(ce.Args[1])
-			}
+			srcOf[lhs.Name] = append(srcOf[lhs.Name], kind)
 			return true
 		})
+		for v, srcs := range srcOf {
+			own, has := true, false
+			for _, k := range srcs {
+				if k == "ownKey" {
+					has = true
+				} else if k != "fresh" {
+					own = false
+				}
+			}
+			voted[v] = own && has
+		}
+		if depth == 0 {
+			// the variable the vote is appended to (`att.Votes = append(att.Votes, …)`)
+			ast.Inspect(fd.Body, func(n ast.Node) bool {
+				as, ok := n.(*ast.AssignStmt)
+				if !ok || len(as.Rhs) != 1 || len(as.Lhs) != 1 {
+					return true
+				}
+				se, ok := as.Lhs[0].(*ast.SelectorExpr)
+				if !ok || se.Sel.Name != "Votes" {
+					return true
+				}
+				if ce, ok := as.Rhs[0].(*ast.CallExpr); ok && c.src(ce.Fun) == "append" {
+					if id, ok := se.X.(*ast.Ident); ok && c03LookupVar == "" {
+						c03LookupVar = id.Name
+						c03Lookup = append([]string{}, srcOf[id.Name]...)
+					}
+				}
+				return true
+			})
+		}
 		var calls func(n ast.Node, guards []string, inLoop bool)
 		var block func(list []ast.Stmt, guards []string, inLoop bool)
 		calls = func(n ast.Node, guards []string, inLoop bool) {
@@ -1408,9 +1470,10 @@ func extractC03(c *ctxT) {
 	}
 	csb.WriteString("]\n\n")
 	classOnly := c.c03ClassOnly()
+	flowTypes := map[string]map[string]string{}
 	c.facts["C03.classOnlyParams"] = classOnly
 	var sb strings.Builder
-	sb.WriteString("import FxVerif.Model.C03Prog\n\nnamespace FxVerif.Gen.C03\nopen FxVerif.Model.C03\n\n" + csb.String() + "end FxVerif.Gen.C03\n\n-- the generated `path` / `validGen` / `handlerView` of each claim type live in the namespace of the model's claim record (so `c.path` resolves)\nnamespace FxVerif.Model.C03\n\n")
+	sb.WriteString("import FxVerif.Model.C03Prog\nimport FxVerif.Model.C03Flow\n\nnamespace FxVerif.Gen.C03\nopen FxVerif.Model.C03\n\n" + csb.String() + "end FxVerif.Gen.C03\n\n-- the generated `path` / `validGen` / `handlerView` of each claim type live in the namespace of the model's claim record (so `c.path` resolves)\nnamespace FxVerif.Model.C03\n\n")
 	var names []string
 	factClaims := map[string]any{}
 	viewFacts := map[string]any{}
@@ -1484,6 +1547,7 @@ func extractC03(c *ctxT) {
 		for _, f := range cl.Fields {
 			ftv[f[0]] = f[1]
 		}
+		flowTypes[cl.Name] = ftv
 		view := c.c03HandlerView(cl.Name, ftv, classOnly)
 		sb.WriteString(c03ViewLean(cl.Name, view))
 		viewFacts[cl.Name] = view
@@ -1575,10 +1639,30 @@ func extractC03(c *ctxT) {
 	}
 	sb.WriteString("]\n\n")
 	c.facts["C03.attestTrySites"] = fsites
+	// where Attest gets the attestation the vote is appended to
+	fmt.Fprintf(&sb, "/-- `Keeper.Attest`: the assignments to `%s`, the attestation the vote is appended to, in program order -/\ndef attestLookup : List AttSource := [", c03LookupVar)
+	if c03LookupVar == "" {
+		c03Lookup = []string{"other:no `x.Votes = append(x.Votes, …)` found in Keeper.Attest"}
+	}
+	for i, k := range c03Lookup {
+		if i > 0 {
+			sb.WriteString(", ")
+		}
+		switch {
+		case k == "ownKey" || k == "fresh":
+			sb.WriteString("." + k)
+		default:
+			sb.WriteString(".otherStored " + leanStr(strings.TrimPrefix(k, "other:")))
+		}
+	}
+	sb.WriteString("]\n\n")
+	c.facts["C03.attestLookup"] = c03Lookup
 
 	sb.WriteString(c.c03KeyLayoutLean())
 	sb.WriteString(c.c03DispatchLean())
 	sb.WriteString(c.c03ProgLean())
+	sb.WriteString(c.c03FlowLean(flowTypes, classOnly))
+	sb.WriteString(c.c03InterfaceLean())
 	sb.WriteString("end FxVerif.Gen.C03\n")
 	c.write("C03.lean", sb.String())
 	c.facts["C03.claims"] = factClaims
